@@ -10,6 +10,7 @@ import numpy as np
 from .. import lib, ref
 from ..ref import Graph
 
+OPTIMISED_LAST_SHARD = True  # the last shard runs under python -O (no assert statements)
 LEVEL = "exploration"
 TECHNIQUE = 'runtime monitoring: per-pixel reference model of input/target images (incl. isolated-pixel removal and pixel extension) judges process_maze_rasterized_input_target, dataset items and batches for all 8 option combinations'
 RULE = ("process_maze_rasterized_input_target(maze, opts) and RasterizedMazeDataset[i] / get_batch(idxs) compared pixel by pixel with "
